@@ -41,7 +41,11 @@ impl<'a> SocketWriteVectored<'a> {
             co_io_result(self.is_coroutine)?;
 
             // clear the io_flag
+            #[cfg(may_verif)]
+            crate::verif::pt("io.clear_flag", crate::verif::addr(&**self.io_data), 0, 0);
             self.io_data.io_flag.store(0, Ordering::Relaxed);
+            #[cfg(may_verif)]
+            crate::verif::pt("io.syscall", crate::verif::addr(&**self.io_data), 0, 0);
 
             match self.socket.write_vectored(self.bufs) {
                 Ok(n) => return Ok(n),
@@ -55,11 +59,15 @@ impl<'a> SocketWriteVectored<'a> {
                 }
             }
 
+            #[cfg(may_verif)]
+            crate::verif::pt("io.recheck", crate::verif::addr(&**self.io_data), 0, 0);
             if self.io_data.io_flag.load(Ordering::Relaxed) != 0 {
                 continue;
             }
 
             // the result is still WouldBlock, need to try again
+            #[cfg(may_verif)]
+            crate::verif::pt("io.yield", crate::verif::addr(&**self.io_data), 0, 0);
             yield_with_io(self, self.is_coroutine);
         }
     }
@@ -75,9 +83,15 @@ impl EventSource for SocketWriteVectored<'_> {
                 .get_selector()
                 .add_io_timer(self.io_data, dur);
         }
+        #[cfg(may_verif)]
+        let vid = crate::verif::co_vid(&co);
+        #[cfg(may_verif)]
+        crate::verif::pt("iosub.store_co", crate::verif::addr(&**io_data), vid, 0);
         io_data.co.store(co);
 
         // there is event, re-run the coroutine
+        #[cfg(may_verif)]
+        crate::verif::pt("iosub.recheck", crate::verif::addr(&**io_data), vid, 0);
         if io_data.io_flag.load(Ordering::Acquire) != 0 {
             io_data.fast_schedule();
         }
